@@ -4,6 +4,7 @@ from .protocolentities import ExtendedTextMessageProtocolEntity
 from yowsup.layers.protocol_messages.protocolentities.attributes.converter import AttributesConverter
 from yowsup.layers.protocol_messages.protocolentities.attributes.attributes_message_meta import MessageMetaAttributes
 from yowsup.layers.protocol_receipts.protocolentities import OutgoingReceiptProtocolEntity
+from yowsup.layers.protocol_messages.proto.e2e_pb2 import Message
 
 import logging
 logger = logging.getLogger(__name__)
@@ -18,6 +19,13 @@ class YowMessagesProtocolLayer(YowProtocolLayer):
 
     def __str__(self):
         return "Messages Layer"
+
+    @staticmethod
+    def isSenderKeyDistributionOnly(protoNode):
+        message = Message()
+        message.ParseFromString(protoNode.getData())
+        fields = [descriptor.name for descriptor, _ in message.ListFields()]
+        return fields == ["sender_key_distribution_message"]
 
     def sendMessageEntity(self, entity):
         if entity.getType() == "text":
@@ -43,8 +51,9 @@ class YowMessagesProtocolLayer(YowProtocolLayer):
                             MessageMetaAttributes.from_message_protocoltreenode(node)
                         )
                     )
-                elif not message.sender_key_distribution_message:
-                    # Will send receipts for unsupported message types to prevent stream errors
+                elif not self.isSenderKeyDistributionOnly(protoNode):
+                    # Will send receipts for unsupported message types to prevent stream errors; a payload that
+                    # carries nothing but a sender key is the pkmsg part of a group message and gets none
                     logger.warning("Unsupported message type: %s, will send receipts to "
                                    "prevent stream errors" % message)
                     self.toLower(
